@@ -131,6 +131,23 @@ def hier_tie(ctx, h, E, reqs, checks):
     real['criteria'] = crit; real['parse'] = parse
     reqs.append({'op': 'hier', 'bases': h['bases'], 'discr': code})
     checks.append(('hier', h, real))
+    # the class a full row gets: the real `_parse_row_` on a fabricated row (discriminator of class r, fetched for entity e) vs `rowClass`
+    rows = []
+    with db_session:
+        E[0]._database_._get_cache()
+        for e in E:
+            select_list, attr_offsets = e._construct_select_clause_()
+            line = []
+            for r in E:
+                if not issubclass(r, e): line.append(None); continue
+                row = [None] * (len(select_list) - 1)
+                for attr in e._pk_attrs_: row[attr_offsets[attr][0]] = 1
+                if e._discriminator_attr_ is not None: row[attr_offsets[e._discriminator_attr_][0]] = r._discriminator_
+                try: line.append(idx[e._parse_row_(tuple(row), attr_offsets)[0]])
+                except Exception as ex: line.append('raised ' + type(ex).__name__)
+            rows.append(line)
+    reqs.append({'op': 'rowclass', 'bases': h['bases'], 'discr': code, 'hasDiscr': [1 if e._discriminator_attr_ is not None else 0 for e in E]})
+    checks.append(('rowclass', h['bases'], rows))
     return code
 
 
@@ -434,6 +451,8 @@ class Checker:
         elif shape == 'objects-o2m': exp = sorted({pk for v in hold.values() for pk in v['many'] if inst(pk)})
         elif shape == 'holders-mref': exp = sorted(hid for hid, v in hold.items() if v['mref'] is not None and inst(v['mref']))
         elif shape == 'holders-ref0': exp = sorted(hid for hid, v in hold.items() if v['ref0'] is not None and inst(v['ref0']))
+        elif shape == 'holders-not-mref': exp = sorted(hid for hid, v in hold.items() if not (v['mref'] is not None and inst(v['mref'])))      # not isinstance(None, S) is True
+        elif shape == 'holders-not-ref0': exp = sorted(hid for hid, v in hold.items() if not (v['ref0'] is not None and inst(v['ref0'])))
         elif shape == 'counts-m2m': exp = sorted((hid, sum(1 for pk in v['refs0'] if inst(pk))) for hid, v in hold.items())
         elif shape == 'counts-o2m': exp = sorted((hid, sum(1 for pk in v['many'] if inst(pk))) for hid, v in hold.items())
         elif shape == 'holders-any-m2m': exp = sorted(hid for hid, v in hold.items() if any(inst(pk) for pk in v['refs0']))
@@ -454,6 +473,11 @@ class Checker:
         got = sorted((o.id if hasattr(o, 'id') else tuple(o)) for o in rows) if shape.startswith('holders') else sorted(tuple(r) for r in rows)
         self.ctx.case(['navigated', h['bases'], h['mode']] + det, kind='oracle:set:navigated')
         if got != exp:
+            if shape in ('holders-not-mref', 'holders-not-ref0'):
+                # the navigation is an inner join: a holder without a reference drops out, while `not isinstance(None, S)` is True in Python
+                attr = 'mref' if shape == 'holders-not-mref' else 'ref0'
+                none_holders = {hid for hid, v in hold.items() if v[attr] is None}
+                if set(got) <= set(exp) and set(exp) - set(got) <= none_holders: key = 'isinstance-not-none-reference'
             if shape in ('holders-mref', 'holders-ref0'):
                 # isinstance(None, cls) is False in Python; the translation of `isinstance(h.ref, <static type of ref>)` is the constant TRUE
                 attr = 'mref' if shape == 'holders-mref' else 'ref0'
@@ -598,6 +622,8 @@ NAVIGATED_FORMS = {
     'o2m-iterate':      ('x for hh in H for x in hh.many if isinstance(x, S)', 'objects-o2m'),
     'to-one-key-left':  ('hh for hh in H if isinstance(hh.mref, S)', 'holders-mref'),
     'to-one-key-right': ('hh for hh in H if isinstance(hh.ref0, S)', 'holders-ref0'),
+    'not-to-one-key-left':  ('hh for hh in H if not isinstance(hh.mref, S)', 'holders-not-mref'),
+    'not-to-one-key-right': ('hh for hh in H if not isinstance(hh.ref0, S)', 'holders-not-ref0'),
     'm2m-count':        ('(hh.id, count(x for x in hh.refs0 if isinstance(x, S))) for hh in H', 'counts-m2m'),
     'o2m-count':        ('(hh.id, count(x for x in hh.many if isinstance(x, S))) for hh in H', 'counts-o2m'),
     'm2m-exists':       ('hh for hh in H if exists(x for x in hh.refs0 if isinstance(x, S))', 'holders-any-m2m'),
@@ -795,6 +821,10 @@ def witnesses(ctx):
     with db_session:
         ok = Checker(ctx, h, db, E, H, w).navigated_query(0, 'to-one-key-right', False)
     state['isinstance-none-reference'] = 'holds' if ok else 'reproduced'
+    # 5. `not isinstance(h.ref, <proper subclass>)` for a reference that is None (inner join; recorded)
+    with db_session:
+        ok = Checker(ctx, h, db, E, H, w).navigated_query(1, 'not-to-one-key-left', False)
+    state['isinstance-not-none-reference'] = 'holds' if ok else 'reproduced'
     db.disconnect()
     # 2. two classes with the same _discriminator_ value are accepted; objects of the first are read back as the second
     db = Database()
@@ -842,6 +872,12 @@ def run(ctx):
         if 'driver_error' in out:
             ctx.divergence('driver error', inp if kind != 'hier' else inp['bases'], model=out, impl=None); continue
         if kind == 'hier': compare_hier(ctx, inp, real, out)
+        elif kind == 'rowclass':
+            for e, (ml, rl) in enumerate(zip(out['rows'], real)):
+                for r, (m, x) in enumerate(zip(ml, rl)):
+                    if x is None: continue
+                    ctx.case(['rowclass', inp, e, r], nontrivial=False, kind='tie:rowclass')
+                    if m != x: ctx.divergence('class of an object built from a full row: model (flags read from _fetch_objects / _parse_row_) and the real _parse_row_ disagree', [inp, e, r], model=m, impl=x)
         elif kind == 'handout':
             ctx.case(['handout'] + inp[:2], nontrivial=False, kind='tie:handout:' + inp[0])
             # the model's worst case (the object WAS a seed when the site was entered): may it still be one when handed out?
